@@ -497,8 +497,11 @@ def select(frags, prop, tier):
     hs = []
     for fr in frags:
         for h in fr.harnesses:
-            if prop in h.get("props", []):
-                if tier == "thorough" or h["tier"] == "quick":
+            props = h.get("props", [])
+            if prop in props:
+                # quick tier: a quick harness runs under its two most relevant properties (the first two it lists);
+                # thorough tier: every harness that is evidence for the property
+                if tier == "thorough" or (h["tier"] == "quick" and prop in props[:2]):
                     hs.append((fr, h))
     return hs
 
@@ -519,7 +522,7 @@ def run_property(prop, tier, seed, selftests=None, only=None):
         deps.update(fr.meta.get("needs", []))
     use = [fr for fr in frags if fr.always or fr.name in need or fr.name in deps]
     known = Known()
-    logdir = os.path.join(CACHE, "logs", prop + "." + tier)
+    logdir = os.path.join(CACHE, "logs", prop + "." + tier + os.environ.get("VERIF_LOG_TAG", ""))
     shutil.rmtree(logdir, ignore_errors=True)
     os.makedirs(logdir, exist_ok=True)
     scratch = None
